@@ -482,6 +482,9 @@ func checkC04(c *Ctx) {
 	laSizes(c, "LA-sizes")
 	laReadCounter(c, "SR-count")
 	runTD(c, "TD", map[string]bool{"reader": true})
+	// the generated column types' Read and Scan are part of the reader a foreign file meets
+	runFT(c, "FT", map[string]bool{"read": true})
+	runTVDriver(c, "TV-driver")
 	footerRejects(c, footerPathFns(c))
 	laFooterMeta(c, "LA-footer", map[string]bool{"rows": true, "seek": true})
 	_, t, _ := srcAnalysis(c)
